@@ -166,7 +166,8 @@ def run(ck):
     if not quick:
         hs += [engb.H('c05_table_n2', cap=3600, meaning='find_n, tables <= 2'), engb.H('c09_composition', cap=2400, unsafe=True, meaning='parse_posix_tz on arbitrary <=6 bytes with abstracted sub-parsers'),
                engb.H('c08_file_composition', cap=3000, meaning='parse_tz_file on arbitrary <=112-byte files with record decoding abstracted')]
-    kprop.run_harnesses(ck, hs)
+    import c08
+    kprop.run_harnesses(ck, hs, on_fail=lambda B, h: (c08.footer_replay(ck, B, h) if h.name == 'c08_footer_framing' else kprop.playback_violation(ck, B, h) if h.playback_ok else ck.inconclusive.append(f'{h.name} FAILED: {h.failed_checks[:4]} (no native replay for this harness; unresolved)')))
     ck.explanation = ('Panic-freedom is decided as proof obligations: Engine A turns every `assert(!overflow)`, bounds check, division check, lossy cast, `unreachable` and loop bound of the overflow-checks=on MIR into a '
                       'query over all inputs; Engine B runs CBMC\'s built-in checks with unwinding assertions on the table, constructor and parser harnesses.')
 
@@ -175,6 +176,9 @@ def replay(ck, case):
     c = case['case']
     if c.get('kind') == 'kani-playback':
         return kprop.replay_playback(ck, case)
+    if c.get('kind') == 'footer':
+        import c08
+        return c08.replay(ck, case)
     nat = common.Native()
     o = nat.both([c['cmd']])[0]
     print(o)
